@@ -24,8 +24,8 @@ EXPLANATION = (
     "admission test); R18.3 the per-tick reset stores zero and is on the Network.pre_timestep path for every link and "
     "the air space; R18.4 the load is accounted BEFORE the frame is handed to the receiver (sibling agreement between "
     "Link.transmit_frame and AirSpace.transmit) - otherwise a reply sent during delivery is admitted against a stale "
-    "R18.5 the numeric settings this property depends on are never tested by truthiness (`x or default`, `if x:`), because 0 is a legal value for them. "
-    "load - and the accounted amount is the same frame.size_Mbits the admission test used. NOT decided: the numeric "
+    "load - and the accounted amount is the same frame.size_Mbits the admission test used. R18.5 the numeric settings this property depends on are never tested by truthiness (`x or default`, `if x:`) - 0 is a legal value for them. "
+    "NOT decided: the numeric "
     "bound itself over all traffic patterns (runtime arithmetic)."
 )
 TECHNIQUE = "static: CFG must-pass admission-before-transmit, admission truth tables, who-may-write of load counters, dominator ordering of accounting vs hand-off"
